@@ -416,6 +416,10 @@ def gen_map_rich_pkg(rng, force=None):
             df.append("\tCount string")
         else:
             src_first = []
+            if rng.random() < 0.6:
+                # the pair a mapper function WOULD convert – but this type embeds no mapper: it must stay unmapped
+                sf.append("\tCount int")
+                df.append("\tCount string")
         if "tag" in feats:
             sf.append("\tSrcLabel string `map:\"Label\"`")
             df.append("\tLabel string")
